@@ -27,14 +27,16 @@ def load_mutants(prop=None):
     for fn in sorted(os.listdir(d)):
         if not fn.endswith('.py') or fn.startswith('_'):
             continue
-        if prop and not fn.startswith(prop):
+        if prop and not (fn.startswith(prop) or fn.startswith('seeded')):
             continue
-        ns = {}
+        ns = {'VERIF': VERIF}
         with open(os.path.join(d, fn), encoding='utf-8') as f:
             exec(compile(f.read(), fn, 'exec'), ns)
         for m in ns.get('MUTANTS', []):
             m = dict(m)
             m.setdefault('prop', fn[:3])
+            if prop and m['prop'] != prop:
+                continue
             out.append(m)
     return out
 
@@ -79,7 +81,14 @@ def run_one(m):
     from stonelint.report import Ctx
     tmp = make_copy(m.get('repo', '/repo'))
     try:
-        stale = apply_edits(tmp, m['edits'])
+        if m.get('patch'):
+            import subprocess
+            r = subprocess.run(['patch', '-p1', '-s', '-f', '-d', tmp, '-i',
+                                os.path.join(VERIF, m['patch'])], capture_output=True, text=True)
+            stale = None if r.returncode == 0 else 'patch does not apply: %s' % (
+                r.stdout + r.stderr)[-200:]
+        else:
+            stale = apply_edits(tmp, m['edits'])
         if stale:
             return dict(m, outcome='stale', info=stale)
         mod = importlib.import_module('stonelint.rules.' + m['prop'])
